@@ -34,6 +34,9 @@ def run(ctx):
     open(table, "w").close()
     r1, n1 = _table(ctx, "Calendar.cfg", table)
     r2, n2 = _table(ctx, "Calendar_edge.cfg", table)
+    if not ctx.quick:
+        r3, n3 = _table(ctx, "Calendar_centuries.cfg", table)
+        n2 += n3
     if n1 != 146097:
         raise Infra("Calendar.cfg emitted %d rows, expected 146097" % n1)
     ctx.cov["states"] = r1.distinct + r2.distinct
